@@ -318,7 +318,7 @@ Section BulkProofs.
       + (* BHas k *)
         destruct (fault OpHas (b_nhas s)).
         * inversion E; subst; clear E.
-          apply mk_inv; [apply (Hpool _ (BErr k)); simp; auto using incl_refl|];
+          apply mk_inv; [apply (Hpool _ (BUnmark k)); simp; auto using incl_refl|];
             apply (eff_doomed s); simp; auto using incl_refl; eapply doomed_new; eauto; exact Logic.I.
         * destruct (has (b_store s) (jid k)) eqn:Eh; inversion E; subst; clear E.
           -- apply mk_inv;
@@ -610,11 +610,11 @@ Proof.
 Qed.
 
 (* ================= ChunkStorage used with retries (no errgroup around it) ================= *)
-(* after a failed ws.StoreChunk the id is unmarked: a retry stores the chunk *)
-Theorem cs_retry_after_store_error proc st i b :
+(* after a failed ws.StoreChunk the id is unmarked: a retry stores the chunk (before and after the fix) *)
+Theorem cs_retry_after_store_error fixed proc st i b :
   memN i proc = false -> has st i = false ->
-  let '(r1, proc1, st1) := cs_store_seq proc st i b false true in
-  let '(r2, proc2, st2) := cs_store_seq proc1 st1 i b false false in
+  let '(r1, proc1, st1) := cs_store_seq fixed proc st i b false true in
+  let '(r2, proc2, st2) := cs_store_seq fixed proc1 st1 i b false false in
   r1 = false /\ r2 = true /\ has st2 i = true.
 Proof.
   intros Hm Hh. unfold cs_store_seq. rewrite Hm, Hh.
@@ -624,11 +624,25 @@ Proof.
   rewrite E, Hh. repeat split. rewrite has_cons, N.eqb_refl. reflexivity.
 Qed.
 
-(* after a failed ws.HasChunk the id stays marked: a retry returns nil without storing *)
-Theorem cs_retry_after_has_error_refuted :
+(* the same after a failed ws.HasChunk, in the current code *)
+Theorem cs_retry_after_has_error proc st i b :
+  memN i proc = false -> has st i = false ->
+  let '(r1, proc1, st1) := cs_store_seq true proc st i b true false in
+  let '(r2, proc2, st2) := cs_store_seq true proc1 st1 i b false false in
+  r1 = false /\ r2 = true /\ has st2 i = true.
+Proof.
+  intros Hm Hh. unfold cs_store_seq. rewrite Hm.
+  assert (E : memN i (delN i (i :: proc)) = false).
+  { destruct (memN i (delN i (i :: proc))) eqn:E; [|reflexivity].
+    apply memN_In, delN_In in E. destruct E as [_ E]. congruence. }
+  rewrite E, Hh. repeat split. rewrite has_cons, N.eqb_refl. reflexivity.
+Qed.
+
+(* before the fix a failed ws.HasChunk left the id marked: the retry returned nil without storing *)
+Theorem cs_retry_after_has_error_prefix_refuted :
   exists proc st i b,
-    let '(r1, proc1, st1) := cs_store_seq proc st i b true false in
-    let '(r2, proc2, st2) := cs_store_seq proc1 st1 i b false false in
+    let '(r1, proc1, st1) := cs_store_seq false proc st i b true false in
+    let '(r2, proc2, st2) := cs_store_seq false proc1 st1 i b false false in
     r1 = false /\ r2 = true /\ has st2 i = false.
 Proof. exists [], [], 5%N, [5%N]. vm_compute. repeat split; reflexivity. Qed.
 
@@ -795,4 +809,147 @@ Proof.
     pose proof (f_broke _ _ _ _ _ _ _ I Efd) as Hc.
     destruct (f_canc _ _ _ _ _ _ _ I Hc) as [Hf|He]; [congruence|].
     pose proof (f_ext _ _ _ _ _ _ _ I He). discriminate.
+Qed.
+
+(* ================= deadlock freedom and termination ================= *)
+Record LInv (s : bstate) : Prop := {
+  l_failc : b_failed s = true -> b_cancelled s = true;
+  l_exit : b_feeder s = Feeding -> forall i, nth_error (b_workers s) i = Some BExited -> b_failed s = true;
+}.
+
+Lemma step_linv H mode jobs src fault cc s t s' :
+  LInv s -> bstep H mode jobs src fault cc s t = Some s' -> LInv s'.
+Proof.
+  intros I E. destruct t as [|i|]; unfold bstep in E.
+  - break_step E; inversion E; subst; clear E; destruct I; constructor; simp; auto; try discriminate.
+  - destruct (nth_error (b_workers s) i) as [w0|] eqn:Ew; [|discriminate].
+    assert (Hex : forall w', w' <> BExited -> b_feeder s = Feeding ->
+              forall j, nth_error (set_nth (b_workers s) i w') j = Some BExited -> b_failed s = true).
+    { intros w' Hw Hf j Ej. apply nth_error_set_nth in Ej. destruct Ej as [[_ Ej]|[_ Ej]]; [congruence|].
+      eapply (l_exit _ I); eauto. }
+    destruct mode; destruct w0 as [| |k|k|k|k|k|k|k]; cbn [worker_step] in E; break_step E;
+      inversion E; subst; clear E; constructor; simp;
+      try exact (l_failc _ I); try reflexivity; try (intros; reflexivity); try (intros; discriminate);
+      try (apply Hex; discriminate);
+      try (intros Hf; congruence).
+  - break_step E; inversion E; subst; clear E; destruct I; constructor; simp; auto.
+Qed.
+
+Lemma run_linv H mode jobs src fault cc store0 nw sched :
+  LInv (run (bstep H mode jobs src fault cc) sched (binit store0 nw)).
+Proof.
+  apply inv_run with (Inv := LInv).
+  - intros s t s' I E. eapply step_linv; eauto.
+  - constructor; cbn; [discriminate|].
+    intros _ i Ei. apply nth_error_In, repeat_spec in Ei. discriminate.
+Qed.
+
+Lemma step_bworkers_length H mode jobs src fault cc s t s' :
+  bstep H mode jobs src fault cc s t = Some s' -> length (b_workers s') = length (b_workers s).
+Proof.
+  intros E. destruct t as [|i|]; unfold bstep in E.
+  - break_step E; inversion E; subst; reflexivity.
+  - destruct (nth_error (b_workers s) i) as [w0|]; [|discriminate].
+    destruct mode; destruct w0; cbn [worker_step] in E; break_step E; inversion E; subst; simp; apply set_nth_length.
+  - break_step E; inversion E; subst; reflexivity.
+Qed.
+
+Lemma run_bworkers_length H mode jobs src fault cc store0 nw sched :
+  length (b_workers (run (bstep H mode jobs src fault cc) sched (binit store0 nw))) = nw.
+Proof.
+  apply (inv_run (bstep H mode jobs src fault cc) (fun s => length (b_workers s) = nw)).
+  - intros s t s' Hs E. rewrite (step_bworkers_length _ _ _ _ _ _ _ _ _ E). exact Hs.
+  - cbn. apply repeat_length.
+Qed.
+
+(* a worker that is neither idle nor gone can always take its next step *)
+Lemma worker_step_enabled H mode jobs src fault s i w :
+  w <> BIdle -> w <> BExited -> worker_step H mode jobs src fault s i w <> None.
+Proof.
+  intros Hi He. destruct w; try congruence; cbn [worker_step];
+    repeat match goal with
+           | |- context [if ?c then _ else _] => destruct c
+           | |- context [match ?x with Some _ => _ | None => _ end] => destruct x
+           | |- context [match mode with MChop => _ | MCopy => _ | MStream => _ end] => destruct mode
+           end; discriminate.
+Qed.
+
+(* ChopFile / Copy / ChunkStream cannot get stuck, whatever faults and cancellations happen. *)
+Theorem bulk_deadlock_free H mode jobs src fault cc store0 nw sched :
+  let s := run (bstep H mode jobs src fault cc) sched (binit store0 nw) in
+  0 < nw -> bfinal s = false -> exists t, bstep H mode jobs src fault cc s t <> None.
+Proof.
+  intros s Hnw Hfin.
+  assert (B := run_inv H mode jobs src fault cc store0 nw sched). fold s in B.
+  assert (L := run_linv H mode jobs src fault cc store0 nw sched). fold s in L.
+  assert (Hlen : length (b_workers s) = nw) by apply run_bworkers_length.
+  unfold bfinal in Hfin. destruct (b_feeder s) as [|b] eqn:Efd.
+  - destruct (b_fed s =? njobs jobs) eqn:Efed.
+    + exists BFeeder. unfold bstep. rewrite Efd, Efed. discriminate.
+    + destruct (b_cancelled s) eqn:Ec.
+      * exists BFeeder. unfold bstep. rewrite Efd, Efed, Ec. discriminate.
+      * assert (Hnf : b_failed s = false).
+        { destruct (b_failed s) eqn:Ef; [|reflexivity]. rewrite (l_failc _ L) in Ec by exact Ef. discriminate. }
+        destruct (nth_error (b_workers s) 0) as [w|] eqn:Ew.
+        2:{ apply nth_error_None in Ew. lia. }
+        exists (BWorker 0). unfold bstep. rewrite Ew.
+        destruct w; try (apply worker_step_enabled; discriminate).
+        -- cbn [worker_step]. rewrite Efd. apply Nat.eqb_neq in Efed.
+           assert (Hlt : b_fed s < njobs jobs) by (pose proof (v_fed _ _ _ _ B); lia).
+           apply Nat.ltb_lt in Hlt. rewrite Hlt. discriminate.
+        -- rewrite (l_exit _ L Efd 0 Ew) in Hnf. discriminate.
+  - unfold ball_exited in Hfin.
+    assert (Hex : exists i w, nth_error (b_workers s) i = Some w /\ w <> BExited).
+    { clear -Hfin. induction (b_workers s) as [|w r IH]; cbn in Hfin; [discriminate|].
+      destruct w; try (exists 0; eexists; split; [reflexivity|discriminate]).
+      cbn in Hfin. destruct (IH Hfin) as [i [w [Hi Hw]]]. exists (S i), w. split; assumption. }
+    destruct Hex as [i [w [Hi Hw]]]. exists (BWorker i). unfold bstep. rewrite Hi.
+    destruct w; try (apply worker_step_enabled; congruence); try congruence.
+    cbn [worker_step]. rewrite Efd. discriminate.
+Qed.
+
+(* termination: every enabled step strictly decreases a measure *)
+Definition bweight (w : bpc) : nat :=
+  match w with
+  | BExited => 0 | BIdle => 1 | BErr _ => 3 | BUnmark _ => 4 | BStore _ => 5
+  | BHas _ => 6 | BMark _ => 7 | BGet _ => 7 | BGot _ => 8
+  end.
+Definition bsum (l : list bpc) : nat := fold_right (fun w a => bweight w + a) 0 l.
+Definition bmu (jobs : list (id * bytes)) (s : bstate) : nat :=
+  8 * (njobs jobs - b_fed s) + match b_feeder s with Feeding => 1 | Stopped _ => 0 end
+  + bsum (b_workers s) + (if negb (b_ext s) then 1 else 0).
+
+Lemma bsum_set_nth l i w w0 :
+  nth_error l i = Some w0 -> bsum (set_nth l i w) + bweight w0 = bsum l + bweight w.
+Proof.
+  unfold bsum. revert i. induction l as [|x r IH]; destruct i; cbn; intros E; try discriminate.
+  - inversion E; subst. lia.
+  - specialize (IH _ E). lia.
+Qed.
+
+Theorem bulk_step_decreases H mode jobs src fault cc s t s' :
+  bstep H mode jobs src fault cc s t = Some s' -> bmu jobs s' < bmu jobs s.
+Proof.
+  intros E. unfold bmu. destruct t as [|i|]; unfold bstep in E.
+  - break_step E; inversion E; subst; clear E; simp; lia.
+  - destruct (nth_error (b_workers s) i) as [w0|] eqn:Ew; [|discriminate].
+    destruct mode; destruct w0; cbn [worker_step] in E; break_step E; inversion E; subst; clear E; simp;
+      try (apply Nat.ltb_lt in Q0);
+      try match goal with Qx : b_feeder s = _ |- _ => rewrite ?Qx end;
+      match goal with
+      | |- context [bsum (set_nth _ _ ?w)] => pose proof (bsum_set_nth _ _ w _ Ew) as Hs; cbn [bweight] in Hs; lia
+      end.
+  - break_step E; inversion E; subst; clear E; simp.
+    apply andb_true_iff in Q. destruct Q as [_ Q]. rewrite Q. cbn. lia.
+Qed.
+
+(* every run made of enabled steps only is at most [bmu init] long: no fairness assumption *)
+Theorem bulk_terminates H mode jobs src fault cc store0 nw sched s' :
+  run_strict (bstep H mode jobs src fault cc) sched (binit store0 nw) = Some s' ->
+  length sched <= bmu jobs (binit store0 nw).
+Proof.
+  intros E.
+  pose proof (measure_bound (bstep H mode jobs src fault cc) (bmu jobs)
+                (fun s t s' Es => bulk_step_decreases H mode jobs src fault cc s t s' Es)
+                sched (binit store0 nw) s' E). lia.
 Qed.
